@@ -10,6 +10,10 @@ POLICY_SHAPE_PINS = ['serialize::unsatisfiable', 'serialize::trivial', 'serializ
 PROPS = {
     "C13": {
         "units": ["bitstream"],
+        # read_natural<N> is generic; the contract is proved for the instance N = usize (the one the library uses, R6). The
+        # other instantiations ("all integer result types", signed ones with negative bounds included) are only covered by the
+        # bounded enumeration c13_natural_replay: a change of the function's text makes the run undecided and runs it
+        "watch": [("src/bit_encoding/bititer.rs", "impl[=impl<I: Iterator<Item = u8>> BitIter<I>] / fn:read_natural", "24fec514a166feb4")],
         "native_thorough": "c13_natural_replay",
         "native_fallback": "c13_natural_replay",
         "kani": {"quick": STD_SPECS + ["c13_read_cmr_complete", "c13_read_cmr_short_complete"],
@@ -138,7 +142,7 @@ PROPS = {
                       "input() pushes a read frame holding exactly the input's padded bits. This is the property's 'independent of where values sit in memory' at the level "
                       "where it is implemented. PARTIAL: the per-combinator arms of exec_with_tracker and the jets are not under contract.",
         "level_note": "Not decided by proof: the combinator arms of exec_with_tracker (watched: a change leaves the run undecided), exec_jet, the C jets themselves. In the thorough tier and as "
-                      "fallback two BOUNDED native enumerations stand in for them: c05_machine_semantics_replay (2073 executions - several thousand in the thorough tier - of programs over every "
+                      "fallback two BOUNDED native enumerations stand in for them: c05_machine_semantics_replay (2397 executions - several thousand in the thorough tier - of programs over every "
                       "combinator incl. disconnect (the right branch's root reaches the left branch), assertl / assertr and fail nodes (executions that must FAIL), compared with a direct evaluator of the "
                       "big-step semantics, debug assertions on; it found defect D8 - zero-width outputs returned as unit - fixed in /repo) and c05_jet_semantics_replay (2 x 88 Core / Elements "
                       "arithmetic, logic and comparison jets through the real dispatch tables and FFI against integer arithmetic). The generated c_jet_ptr / source_ty / target_ty tables are watched. Assumed as for C07.",
@@ -287,7 +291,13 @@ PROPS = {
         # makes the run undecided and the bounded enumeration decides
         "watch": [("src/policy/satisfy.rs", "impl[=impl<Pk: ToXOnlyPubkey> Policy<Pk>] / fn:satisfy_internal", "ab1c0e72921161bb"),
                   ("src/policy/satisfy.rs", "impl[impl<'brand, Pk: ToXOnlyPubkey> Satisfier<'brand, Pk>\n    for (&types::Context<'brand>, elements::Sequence)] / fn:check_older", "cc9a17d536259daa"),
-                  ("src/policy/satisfy.rs", "impl[impl<'brand, Pk: ToXOnlyPubkey> Satisfier<'brand, Pk>\n    for (&types::Context<'brand>, elements::LockTime)] / fn:check_after", "ba3c1cda3126f759")],
+                  ("src/policy/satisfy.rs", "impl[impl<'brand, Pk: ToXOnlyPubkey> Satisfier<'brand, Pk>\n    for (&types::Context<'brand>, elements::LockTime)] / fn:check_after", "ba3c1cda3126f759"),
+                  # satisfy() prunes the program by running it: which branches the tracker remembers decides whether the
+                  # returned program still runs ("the program it returns runs successfully")
+                  ("src/bit_machine/tracker.rs", "impl[=impl ExecTracker for SetTracker] / fn:visit_node", "1dcf06ca251b20de"),
+                  ("src/bit_machine/tracker.rs", "impl[=impl PruneTracker for SetTracker] / fn:contains_left", "77aceaebe6bd080c"),
+                  ("src/bit_machine/tracker.rs", "impl[=impl PruneTracker for SetTracker] / fn:contains_right", "cbb44196d709a9e8"),
+                  ("src/node/redeem.rs", "impl[=impl RedeemNode] / fn:prune_with_tracker", "6aa527180b286c0e")],
         "native_cex": {"Policy::sort": "c16_policy_sort_replay", "Policy::sorted": "c16_policy_sort_replay", "*": "c16_policy_roots_replay"},
         "native_thorough": ["c16_policy_sort_replay", "c16_policy_roots_replay"],
         "native_fallback": ["c16_policy_sort_replay", "c16_policy_roots_replay"],
